@@ -439,6 +439,13 @@ Proof.
   apply idx_is_spec in Hi. exists d. auto.
 Qed.
 
+Lemma entries_same_refl es : entries_same es es = true.
+Proof.
+  unfold entries_same. assert (H : entries_subset es es = true); [|rewrite H; reflexivity].
+  unfold entries_subset. apply forallb_forall. intros x Hx. apply existsb_exists. exists x. split; [exact Hx|].
+  unfold entry_eqb. rewrite str_eqb_refl, N.eqb_refl. reflexivity.
+Qed.
+
 Section After.
   Variables (w : world) (roots : list root) (D : list dfile) (flt : option str).
   Let M := managed_for_plan w roots flt.
@@ -556,24 +563,35 @@ Section After.
       rewrite (proj2 (fobj_eqb_eq _ _) eq_refl). reflexivity.
   Qed.
 
-  (* ... and no used root lacks a manifest *)
+  (* ... and no used root lacks an exact manifest *)
   Lemma manifests_present_from rs : forall i,
     (forall j r, nth_error rs j = Some r -> nth_error roots (i + j) = Some r) ->
     manifests_missing_from i rs roots D (files w') = false.
   Proof.
     induction rs as [|r rs IH]; intros i H; simpl; [reflexivity|]. apply orb_false_iff. split.
-    - destruct (existsb (fun d => idx_is (best_root_idx roots (dtarget d) (dpath d)) i) D) eqn:Eu; [|reflexivity].
-      assert (Hn : nth_error roots i = Some r) by (rewrite <- (Nat.add_0_r i); apply H; reflexivity).
-      assert (Hex : exists_at (files w') (mf_path r) = true).
-      { unfold exists_at. rewrite (files_after_mf i r Hn).
-        assert (Hp : is_nil (per_root roots D i r) = false).
+    - assert (Hn : nth_error roots i = Some r) by (rewrite <- (Nat.add_0_r i); apply H; reflexivity).
+      destruct (existsb (fun d => idx_is (best_root_idx roots (dtarget d) (dpath d)) i) D) eqn:Eu.
+      + assert (Hp : is_nil (per_root roots D i r) = false).
         { apply existsb_exists in Eu as [d [Hd Hi]]. unfold per_root.
           destruct (filter _ D) eqn:Ef.
           - exfalso. assert (Hin : In d (filter (fun d => idx_is (best_root_idx roots (dtarget d) (dpath d)) i) D))
               by (apply filter_In; auto). rewrite Ef in Hin. exact Hin.
           - reflexivity. }
-        rewrite Hp. simpl. rewrite orb_true_r. reflexivity. }
-      rewrite Hex. reflexivity.
+        assert (Hmf : files w' (mf_path r) = Some (new_manifest r (per_root roots D i r))).
+        { rewrite (files_after_mf i r Hn). rewrite Hp. simpl. rewrite orb_true_r. reflexivity. }
+        unfold read_manifest, chosen_manifest. rewrite Hmf. unfold new_manifest, manifest_usable.
+        rewrite N.eqb_refl, str_eqb_refl. cbn [andb]. rewrite entries_same_refl. reflexivity.
+      + assert (Hp : per_root roots D i r = []).
+        { unfold per_root. assert (Ef : filter (fun d => idx_is (best_root_idx roots (dtarget d) (dpath d)) i) D = []);
+            [|rewrite Ef; reflexivity].
+          destruct (filter _ D) as [|d l] eqn:Ef; [reflexivity|]. exfalso.
+          assert (Hin : In d (filter (fun d => idx_is (best_root_idx roots (dtarget d) (dpath d)) i) D)) by (rewrite Ef; left; reflexivity).
+          apply filter_In in Hin as [Hd Hi].
+          assert (existsb (fun d => idx_is (best_root_idx roots (dtarget d) (dpath d)) i) D = true)
+            by (apply existsb_exists; exists d; auto). congruence. }
+        rewrite (files_after_mf i r Hn), Hp.
+        destruct (exists_at (files w) (mf_path r) || negb (is_nil []) || root_had_changes roots pl i); [|reflexivity].
+        unfold new_manifest, manifest_usable. rewrite N.eqb_refl, str_eqb_refl. reflexivity.
     - apply IH. intros j r' Hj. replace (S i + j)%nat with (i + S j)%nat by lia. apply H. exact Hj.
   Qed.
 
